@@ -992,7 +992,7 @@ def log_phase(ctx, cases, wiring, pnu, bad_frozen):
                       % (rr,), data={'kind': 'log', 'case': strip(c), 'calls': r['calls']}, key=known, no_input=True,
                       broken='call-log correspondence case %d' % cid)
     # wiring obligations that failed without any case exhibiting them
-    if bad_frozen and not any(byid[c['id']].get('_frozen_bad') for c in cases):
+    if bad_frozen and not ctx.replay and not any(byid[c['id']].get('_frozen_bad') for c in cases):
         ctx.violation('frozen-flag wiring of _integrate_phi is not the identity for d in %r but no generated case exhibits it' % bad_frozen,
                       no_input=True, broken='generated obligation C16_ob_frozen%d' % bad_frozen[0])
 
